@@ -11,6 +11,7 @@ import hashlib
 
 import numpy as np
 import onnx
+from onnx import helper
 import onnx_ir as ir
 import onnx_ir.passes.common as P
 from onnx_ir.passes.common import _c_api_utils
@@ -441,6 +442,7 @@ def run_exploration(tier):
             tasks.append((which, lo, min(count, lo + step), depth, tier))
     res = common.pmap(_work, common.shuffled(tasks, "passes"), chunksize=1)
     res = list(res) + list(common.pmap(_api_work, [(i, 2) for i in range(len(api_models()))], chunksize=1))
+    res += list(common.pmap(_edit_work, [(i, tier) for i in range(len(_edit_seed_protos(tier)))], chunksize=1))
     tot = {"states": 0, "transitions": 0, "modifying": 0}
     found = {}
     status = {}
@@ -550,7 +552,7 @@ def _api_work(task):
     distinct = set()
 
     def rec(clause, h, detail):
-        found.setdefault(("c05", ("api", label, clause, h[-1])), {"clause": clause, "seed": ["api:" + label], "seed_hex": None, "path": list(h), "detail": detail})
+        found.setdefault(("c05", f"{clause}|{h[-1]}|api:{label}"), {"clause": clause, "seed": ["api:" + label], "seed_hex": None, "path": list(h), "detail": detail})
 
     for h in hists:
         model = build()
@@ -608,6 +610,208 @@ def replay_api(label, history, clause):
     _, _, _, found, _ = _api_work((idx, len(history)))
     bad = [f for f in found.values() if f["path"] == list(history) and f["clause"] == clause]
     return (not bad), [b["detail"] for b in bad][:2]
+
+
+# ---------------------------------------------------------------------------
+# C05: pass - public edit - pass on ONE in-memory model. The reference for the second pass is the edited model itself
+# (serialised and evaluated just before the pass runs): anything a pass, or an accessor it calls, remembered about a
+# node from before the edit shows as a difference.
+
+EDIT_SEED_FORMS = [
+    (("CallScaleDefault", "x"),), (("CallTwice", "x"),), (("CallFwd", "x"),), (("CallBias", "x"),),
+    (("Neg", "x"), ("Neg", "x")), (("Sub", "x", "w1"), ("Sub", "x", "w2")), (("If", "call", "neg", "x"),), (("Id", "x"), ("Neg", "v0")),
+]
+
+
+def _edit_seed_protos(tier):
+    out = []
+    seeds = []
+    for forms, outs in gg.gen_models(1):
+        seeds.append((forms, outs))
+    by_first = {}
+    for forms, outs in seeds:
+        by_first.setdefault(forms[0][0], (forms, outs))
+    picked = list(by_first.values())
+    two = [fo for fo in gg.gen_models(2)]
+    picked += two[:: max(1, len(two) // (6 if tier == "quick" else 40))]
+    for forms, outs in picked:
+        m = gg.make_model(forms, outs)
+        # a second domain holding functions of the same names that compute something else (negated result)
+        for f in list(m.functions):
+            f2 = onnx.FunctionProto()
+            f2.CopyFrom(f)
+            f2.domain = "local2"
+            last = f2.output[0]
+            f2.node.append(helper.make_node("Neg", [last], [last + "_neg"], name=f"{f.name}_l2_neg"))
+            f2.output[0] = last + "_neg"
+            if not any(o.domain == "local" for o in f2.opset_import) and any(n.domain == "local" for n in f2.node):
+                f2.opset_import.append(helper.make_opsetid("local", 1))
+            m.functions.append(f2)
+        m.opset_import.append(helper.make_opsetid("local2", 1))
+        if not any(o.domain == "local" for o in m.opset_import):
+            m.opset_import.append(helper.make_opsetid("local", 1))
+        try:
+            onnx.checker.check_model(m)
+        except Exception:  # noqa: BLE001
+            continue
+        out.append(((forms, outs), m))
+    return out
+
+
+def _first(nodes, pred):
+    for n in nodes:
+        if pred(n):
+            return n
+    return None
+
+
+_OP_SWAP = {"Neg": "Abs", "Abs": "Neg", "Relu": "Neg", "Add": "Sub", "Sub": "Add", "Mul": "Add"}
+
+
+def _edits():
+    """(label, fn(model) -> bool applied). Every edit goes through a public setter or method."""
+    def retarget_domain(m):
+        n = _first(m.graph, lambda n: n.domain == "local")
+        if n is None:
+            return False
+        n.domain = "local2"
+        return True
+
+    def retarget_domain_in_function(m):
+        for f in m.functions.values():
+            if f.domain != "local":
+                continue
+            n = _first(f, lambda n: n.domain == "local")
+            if n is not None:
+                n.domain = "local2"
+                return True
+        return False
+
+    def retarget_op_type(m):
+        n = _first(m.graph, lambda n: n.domain == "" and n.op_type in _OP_SWAP)
+        if n is None:
+            return False
+        n.op_type = _OP_SWAP[n.op_type]
+        return True
+
+    def set_alpha(m):
+        n = _first(m.graph, lambda n: "alpha" in n.attributes)
+        if n is None:
+            n = _first(m.graph, lambda n: n.domain == "local" and n.op_type in ("Scale",))
+            if n is None:
+                return False
+        n.attributes["alpha"] = ir.AttrFloat32("alpha", 7.0)
+        return True
+
+    def swap_inputs(m):
+        n = _first(m.graph, lambda n: n.op_type in ("Sub",) and len(n.inputs) == 2 and n.inputs[0] is not n.inputs[1])
+        if n is None:
+            return False
+        a, b = n.inputs
+        n.replace_input_with(0, b)
+        n.replace_input_with(1, a)
+        return True
+
+    def rename_value(m):
+        for n in m.graph:
+            for o in n.outputs:
+                if o.name and not o.is_graph_output():
+                    o.name = "renamed_by_edit"
+                    return True
+        return False
+
+    def redirect_uses(m):
+        # every consumer of the first intermediate value reads the graph input x instead
+        x = m.graph.inputs[0]
+        for n in m.graph:
+            for o in n.outputs:
+                if o.uses() and not o.is_graph_output() and o.type == x.type:
+                    o.replace_all_uses_with(x)
+                    return True
+        return False
+
+    return [("retarget_domain", retarget_domain), ("retarget_domain_in_function", retarget_domain_in_function), ("retarget_op_type", retarget_op_type),
+            ("set_alpha", set_alpha), ("swap_inputs", swap_inputs), ("rename_value", rename_value), ("redirect_uses", redirect_uses)]
+
+
+def _edit_run(proto, p1, edit_fn, p2):
+    """Returns (status, detail). status in ok / skip / clause."""
+    model = ir.from_proto(onnx.ModelProto.FromString(proto.SerializeToString()))
+    try:
+        if p1 is not None:
+            model = PASS_INDEX[p1]()(model).model
+    except Exception:  # noqa: BLE001  (judged by the plain exploration)
+        return "skip", "first pass raises"
+    try:
+        if not edit_fn(model):
+            return "skip", "edit not applicable"
+    except Exception as e:  # noqa: BLE001
+        return "skip", f"edit refused: {type(e).__name__}"
+    try:
+        mid = ir.to_proto(model)
+        onnx.checker.check_model(mid, full_check=True)  # includes strict shape inference: an edit that leaves stale annotations is not a valid model
+    except Exception:  # noqa: BLE001
+        return "skip", "edited model is not valid"
+    feeds = gg.feeds_for(mid)
+    try:
+        want = [evalproto.run(mid, f) for f in feeds]
+    except evalproto.EvalError:
+        return "skip", "edited model is not evaluable"
+    ins = non_initializer_inputs(mid)
+    try:
+        model = PASS_INDEX[p2]()(model).model
+    except Exception as e:  # noqa: BLE001
+        return "pass_raises_on_valid_model", f"{type(e).__name__}: {str(e)[:140]}"
+    try:
+        after = ir.to_proto(model)
+    except Exception as e:  # noqa: BLE001
+        return "model_not_serializable_after_pass", f"{type(e).__name__}: {str(e)[:140]}"
+    try:
+        onnx.checker.check_model(after, full_check=False)
+    except Exception as e:  # noqa: BLE001
+        return "checker_rejects_after_pass", str(e)[:160]
+    now_inputs = {i.name for i in after.graph.input}
+    if len(non_initializer_inputs(after)) != len(ins) or len(after.graph.output) != len(mid.graph.output):
+        return "interface_changed", (non_initializer_inputs(after), len(after.graph.output))
+    for i, (f, a) in enumerate(zip(feeds, want)):
+        if any(k not in now_inputs for k in f):
+            continue
+        try:
+            b = evalproto.run(after, f)
+        except evalproto.EvalError as e:
+            return "model_no_longer_evaluates", str(e)[:140]
+        if not evalproto.same(a, b):
+            return "outputs_differ", {"feed": i, "before": _short(a), "after": _short(b)}
+    return "ok", None
+
+
+def _edit_work(task):
+    idx, tier = task
+    desc, proto = _edit_seed_protos(tier)[idx]
+    names = [None] + [n for n, _ in PASSES]
+    found = {}
+    n = 0
+    applied = 0
+    for p1 in names:
+        for elabel, efn in _edits():
+            st0, _ = _edit_run(proto, p1, efn, "Checker")
+            if st0 == "skip":
+                continue
+            applied += 1
+            for p2, _ in PASSES:
+                n += 1
+                st, detail = _edit_run(proto, p1, efn, p2)
+                if st not in ("ok", "skip"):
+                    found.setdefault(("c05", f"{st}|{p2}|after_edit:{elabel}"), {"clause": st, "seed": [list(map(list, desc[0])), list(desc[1])], "seed_hex": proto.SerializeToString().hex(), "path": [p1, "edit:" + elabel, p2], "detail": detail})
+    return applied, n, applied, found, {"ok": 1}
+
+
+def replay_edit(seed_hex, history, clause):
+    proto = onnx.ModelProto.FromString(bytes.fromhex(seed_hex))
+    p1, e, p2 = history
+    efn = dict(_edits())[e.split(":", 1)[1]]
+    st, detail = _edit_run(proto, p1, efn, p2)
+    return st != clause, [st, detail]
 
 
 # ---------------------------------------------------------------------------
